@@ -424,7 +424,9 @@ theorem okRequest_of (s : St) (t : Nat) (p : Pc) (h : InvS s) (hp : s.pcOf t = s
     (hc : PyDict.get? s.cache (s.locOf t) = none) : s.mon.okRequest t (s.locOf t) = true := by
   obtain ⟨m, hm, hst, hl⟩ := mtask_of s t p h hp hpd
   unfold Mon.okRequest
-  simp only [hm, hst, hl, beq_self_eq_true, Bool.and_self, Bool.true_and, List.all_eq_true]
+  simp only [hm, hst, hl, beq_self_eq_true, Bool.and_self, Bool.true_and, Bool.or_eq_true]
+  left
+  rw [List.all_eq_true]
   intro d hd
   obtain ⟨i, hi, rfl⟩ := List.getElem_of_mem hd
   have q1 : s.mon.dls[i]? = some s.mon.dls[i] := List.getElem?_eq_getElem hi
